@@ -78,8 +78,8 @@ def run_lines_e(exe, args, lines, **kw):
 def run(ctx):
     quick = ctx.quick()
     corpus = [c for c in repo_corpus(quick) if not quick or c[0] != "cases_nosan"]    # same functions as `cases`; random units cover the no-sanity option
-    st = family_setup(ctx, PROPS, n_random=3 if quick else 50, tl2_random=False, objx_random=2 if quick else 15, corpus=corpus)
-    nreq = 5 if quick else 30
+    st = family_setup(ctx, PROPS, n_random=3 if quick else 9, tl2_random=False, objx_random=2 if quick else 6, corpus=corpus)
+    nreq = 5 if quick else 15
     nres = 4 if quick else 12
     stats = {"schemas": 0, "functions": 0, "functions_result_shaped_by_request": 0, "functions_with_typed_path": 0, "requests": 0, "result_values": 0,
              "ops_valid": 0, "ops_valid_go": 0, "ops_mutated": 0, "ops_wrong_env": 0, "json_roundtrip_same": 0, "tl2_roundtrip_same": 0, "cross_same": 0, "typed_same": 0,
